@@ -1,16 +1,10 @@
-"""Per-property registration data; tools/mk_manifest.py turns this into MANIFEST.json."""
+"""Per-property claims live in claims/Cxx.json (text, note, technique, design_ref[, category]);
+tools/mk_manifest.py turns them into MANIFEST.json.  A property without a claim file is listed under
+not_applicable with the reason below (or the specific one in NOT_APPLICABLE)."""
+import json
+import os
 
-CLAIMED = {
-    'C28': {
-        'text': 'Lean theorem `C28.rotation`: for every node count n>0 and every outcome sequence (induction over the list, no length bound) the '
-                'model of RpcMultiNode.request sends request i to node i % n. The model is parametrised by the exit-path structure of the method, '
-                're-extracted from the source on every run; the real class is run against the model on exhaustive short and random long outcome sequences.',
-        'note': 'Trusted: Lean kernel; the ast pattern that classifies RpcMultiNode.request (advance in finally / after call); the stubbed RpcNode.request '
-                '(success or RpcError) stands for the network. Only the rotation logic is modelled; RpcNode.request itself is C26.',
-        'technique': 'Lean 4 proof by list induction over a source-extracted model + differential correspondence',
-        'design_ref': '§5 C28',
-    },
-}
-
-NOT_YET = 'check not built yet in this session (model and theorem planned in DESIGN.md §5); not claimed'
+_D = os.path.join(os.path.dirname(os.path.dirname(os.path.abspath(__file__))), 'claims')
+CLAIMED = {fn[:-5]: json.load(open(os.path.join(_D, fn))) for fn in sorted(os.listdir(_D)) if fn.endswith('.json')}
+NOT_YET = 'check not built yet (model and theorem planned in DESIGN.md §5); not claimed'
 NOT_APPLICABLE = {}
